@@ -173,6 +173,11 @@ SYNTAX = [
     ("syntax.schema_dir_comment_only_file", {"schema_dir": {"a.graphql": "type Query { a: Int }\n", "b.graphql": "# nothing here yet\n"}}),
     ("syntax.queries_dir_definition_split_across_files", {"queries_dir": {"a.graphql": "query Q { a \n", "b.graphql": "}\n"}}),
     ("syntax.queries_dir_comment_only_file", {"queries_dir": {"a.graphql": "query Q { a }\n", "b.graphql": "# todo\n"}}),
+    # blank files: an empty document is a syntax error too
+    ("syntax.schema_blank", {"schema": "  \n"}),
+    ("syntax.queries_blank", {"queries": ""}),
+    ("syntax.queries_dir_blank_file", {"queries_dir": {"a.graphql": "query Q { a }\n", "b.graphql": "\n\n"}}),
+    ("syntax.schema_dir_blank_file", {"schema_dir": {"a.graphql": "type Query { a: Int }\n", "b.graphql": ""}}),
 ]
 DIR_STATES = ["absent", "empty", "previous_generation"]
 
